@@ -34,6 +34,8 @@ ASSUMPTIONS = [
     "the multiprocessing Manager server and pickling are part of the trusted base; payloads are picklable",
     "concurrent oracle: a load is illegitimate only if a completed earlier access to the same index certainly populated the cache and no clear overlaps the interval in between",
     "readers are multiprocessing (fork) processes, as DataLoader workers are",
+    "indices are non-negative ints (what samplers produce); an index beyond the last sample must raise IndexError like the wrapped dataset "
+    "(the legacy iteration protocol `list(ds)` relies on it); negative indices are not driven",
 ]
 MONITORS = ["sequential_reads_checked", "concurrent_reads_checked", "loads_observed", "transform_applications_observed", "clears_observed", "concurrent_histories"]
 THOROUGH_SHARDS = 8
@@ -79,6 +81,8 @@ class Base(torch.utils.data.Dataset):
         os.write(self._fd, (json.dumps(rec) + "\n").encode())
 
     def __getitem__(self, idx):
+        if not 0 <= int(idx) < self.n:
+            raise IndexError(f"index {idx} out of range for {self.n} samples")
         self._log({"p": os.getpid(), "i": int(idx), "t": time.monotonic_ns()})
         if self.sleep_us:
             time.sleep(self.sleep_us * 1e-6 * (1 + (idx % 3)))
@@ -141,6 +145,10 @@ def gen_cases(run):
             r = rng.random()
             if r < 0.08:
                 ops.append(["clear"])
+            elif r < 0.11:
+                ops.append(["oob", rng.choice([0, 1, 5])])   # access `offset` beyond the last sample: the wrapped dataset raises IndexError
+            elif r < 0.13:
+                ops.append(["iter"])                          # list(cached): legacy __getitem__ iteration protocol, ends with IndexError
             else:
                 ops.append(["get", rng.randrange(nkeys)])
         yield {"kind": "seq", "payload": PAYLOADS[i % len(PAYLOADS)], "nkeys": nkeys, "ops": ops, "transform": rng.random() < 0.85}
@@ -199,6 +207,40 @@ def run_case(run, spec):
             cached.dispose()
             loaded_since_clear = set()
             run.count("clears_observed")
+            continue
+        if op[0] == "oob":
+            j = 8 + op[1]
+            run.count("out_of_range_probes")
+            try:
+                got = cached[j]
+            except IndexError:
+                tail_loads.new(), tail_tr.new()
+                continue
+            except Exception as e:
+                run.violation(f"seq:out-of-range-raises:{type(e).__name__}", f"step {step}: cached[{j}] on 8 samples raised {type(e).__name__}: {e}; the wrapped dataset raises IndexError")
+                return
+            run.violation("seq:out-of-range-returns", f"step {step}: cached[{j}] on 8 samples returned {repr(got)[:120]}; the wrapped dataset raises IndexError")
+            return
+        if op[0] == "iter":
+            import itertools
+            run.count("iterations_checked")
+            try:
+                got_all = list(itertools.islice(iter(cached), 8 + 3))
+            except Exception as e:
+                run.violation(f"seq:iteration-raises:{type(e).__name__}", f"step {step}: list(cached) raised {type(e).__name__}: {e}")
+                return
+            want_all = [_digest(("T", _payload(spec["payload"], q)) if spec["transform"] else _payload(spec["payload"], q)) for q in range(8)]
+            if [_digest(v) for v in got_all] != want_all:
+                run.violation("seq:iteration", f"step {step}: iterating the cached dataset yields {len(got_all)} samples / different values; the wrapped dataset yields its 8 samples")
+                return
+            new_loads = tail_loads.new()
+            tail_tr.new()
+            bad = [l["i"] for l in new_loads if l["i"] in loaded_since_clear]
+            if bad:
+                run.violation("seq:redundant-load", f"step {step}: iteration re-loaded indices {bad} that were loaded since the last clear")
+                return
+            loaded_since_clear |= set(range(8))
+            run.count("loads_observed", len(new_loads))
             continue
         i = op[1]
         try:
